@@ -569,6 +569,21 @@ class FnTranslatorX(rs.FnTranslator):
             if not isinstance(t, TTuple) or e.i >= len(t.items):
                 self.err("tuple field `.%d` on %r" % (e.i, t), e)
             return proj(s, e.i, len(t.items)), t.items[e.i]
+        if k == "cast":
+            target = self.ty(e.ty)
+            if isinstance(target, TAbs):
+                v, vt = self.expr(e.e, code, None)
+                key = "as:%r:%s" % (vt, target.name)
+                if key not in self.absfns:
+                    self.err("cast `%r as %s` (declare the abstract function `%s` in the spec)" % (vt, target.name, key), e)
+                return "%s %s" % (self.absfns[key]["lean"], atom(v)), target
+        if k == "bin" and e.op in ("+", "-", "*", "/") and strip(e.l).kind == "cast" and isinstance(self.ty(strip(e.l).ty), TAbs):
+            l, lt = self.expr(e.l, code, None)
+            r, rt = self.expr(e.r, code, lt)
+            key = "op:%s:%s" % (e.op, lt.name)
+            if lt != rt or key not in self.absfns:
+                self.err("`%s` on %r and %r (declare the abstract function `%s` in the spec)" % (e.op, lt, rt, key), e)
+            return "%s %s %s" % (self.absfns[key]["lean"], atom(l), atom(r)), lt
         if k == "var" and e.name == "None":
             if not isinstance(expected, TOpt):
                 self.err("`None` where the expected type is not known to be an `Option`", e)
@@ -641,6 +656,8 @@ class FnTranslatorX(rs.FnTranslator):
             key = "self." + ".".join(self.self_chain(recv)) + "." + nm
             if key in self.absfns:
                 return self.abs_call(key, e, code)
+        if nm == "fold" and len(e.args) == 2 and e.args[1].kind == "closure":
+            return self.fold(e, code, expected)
         if nm == "is_empty" and not e.args:
             r, t = self.expr(e.recv, code)
             if not isinstance(t, TSeq):
@@ -671,6 +688,45 @@ class FnTranslatorX(rs.FnTranslator):
         if nm in ("clone", "to_owned", "into") and not e.args and nm == "clone":
             return self.expr(e.recv, code, expected)
         return rs.FnTranslator.mcall(self, e, code, expected)
+
+    def fold(self, e, code, expected):
+        """`it.fold(init, |acc, x| body)` = `List.foldlM` of the closure, a named helper `<fn>_fold<k>`"""
+        self.n_fold = getattr(self, "n_fold", 0) + 1
+        name = "%s_fold%d" % (self.lean_fn, self.n_fold)
+        lst, elem_t, br = self.loop_source(e.recv, code, e)
+        if br is not None:
+            self.err("`.by_ref().fold(…)`", e)
+        init, acc_t = self.expr(e.args[0], code, expected)
+        cl = e.args[1]
+        if len(cl.params) != 2:
+            self.err("`fold` closure with %d parameters" % len(cl.params), cl)
+        names = self.pat_names_x(cl.params[0]) + self.pat_names_x(cl.params[1])
+        if jumps(cl.body) or self.assigned(cl.body):
+            self.err("`fold` closure that assigns outer variables or jumps", cl)
+        caps = self.captured(cl.body, [], names)
+        saved_scopes, saved_tail = self.scopes, self.tail_expected
+        self.scopes = [dict((v.rust, Var(v.rust, v.lean, v.ty)) for v in caps), {}]
+        self.loop_depth += 1
+        try:
+            p1 = self.lean_pat(cl.params[0], acc_t, cl)
+            p2 = self.lean_pat(cl.params[1], elem_t, cl)
+            body = Code()
+            r, rt = self.block_value(cl.body, body, acc_t)
+            if rt != acc_t:
+                self.err("`fold` closure returns %r, the accumulator is %r" % (rt, acc_t), cl)
+            body.final = ("pure", r)
+        finally:
+            self.scopes, self.tail_expected = saved_scopes, saved_tail
+            self.loop_depth -= 1
+        lines = ["/-- the closure of `.fold(…)` (line %d) -/" % self.src.line_of(cl.pos),
+                 "%s : %s → %s → Res %s" % (self.helper_header(name, caps), paren_ty(acc_t.lean()), paren_ty(elem_t.lean()),
+                                           paren_ty(acc_t.lean())),
+                 "  | %s, %s => do" % (p1, p2)]
+        rs.emit_code(body, 4, lines)
+        self.helpers.append("\n".join(lines))
+        t = self.tmp()
+        code.bind(t, ("call", "%s.foldlM %s %s" % (atom(lst), atom(name + self.abs_args() + "".join(" " + v.lean for v in caps)), atom(init))))
+        return t, acc_t
 
     def abs_call(self, key, e, code):
         f = self.absfns[key]
@@ -826,6 +882,14 @@ class FnTranslatorX(rs.FnTranslator):
             return
         if k in ("break", "continue"):
             self.err("`%s` in a position the continuation-style translation does not reach (e.g. inside a nested `match`)" % k, s)
+        if k == "let" and s.pat.kind == "ptuple" and strip(s.init).kind != "tuple" and s.ty is None \
+                and all(q.kind == "pid" for q in s.pat.items):
+            val, t = self.expr(s.init, code, None)
+            if not isinstance(t, TTuple) or len(t.items) != len(s.pat.items):
+                self.err("tuple `let` of a value of type %r" % (t,), s)
+            vs = [self.declare(q.name, qt, s, mutable=q.mut) for q, qt in zip(s.pat.items, t.items)]
+            code.let("(" + ", ".join(v.lean for v in vs) + ")", val)
+            return
         if k == "let" and s.pat.kind == "pstruct":
             val, t = self.expr(s.init, code, None)
             if not isinstance(t, TRec) or t.name != s.pat.name:
@@ -958,6 +1022,16 @@ class FnTranslatorX(rs.FnTranslator):
             if nt != TInt("usize"):
                 self.err("`.%s(%r)`" % (it.name, nt), it)
             return "%s.%s %s" % (atom(l), "take" if it.name == "take" else "drop", atom(n)), t, None
+        if it.kind == "mcall" and len(it.args) == 1 and it.name == "step_by":
+            l, t, br = self.loop_source(it.recv, code, s)
+            if br is not None:
+                self.err("`.by_ref().step_by(n)`", it)
+            n, nt = self.expr(it.args[0], code, TInt("usize"))
+            if nt != TInt("usize"):
+                self.err("`.step_by(%r)`" % (nt,), it)
+            tv = self.tmp()
+            code.bind(tv, ("call", "Rs.stepBy %s %s" % (atom(l), atom(n))))
+            return tv, t, None
         if it.kind == "range":
             if it.lo is None or it.hi is None:
                 self.err("range without both bounds as a loop source", s)
